@@ -174,6 +174,14 @@ def run_conc(pid, tier, seed, plan):
             corpus_notes.append({"defect": c["defect"], "violates": inv, "scenario": c["scenario"], "schedule": sched})
             log("%s model %s with defect %s violates %s (schedule of %d steps replayed on the real code)" % (pid, c["module"], c["defect"], inv, len(sched)))
             tasks.append((c["scenario"], ["model"] + sched, "corpus%d" % len(corpus_notes), 0))
+        # defects whose counterexample cannot be replayed (no scheduling seam in the code they live in): model sensitivity only
+        for c in plan.get("model_defects", []):
+            res = tlc(c["module"], c["cfg"], wd, workers=1, timeout=600)
+            inv = res.violated_invariant()
+            if not inv:
+                raise MachineryError("model %s does not notice defect %s" % (c["module"], c["defect"]))
+            corpus_notes.append({"defect": c["defect"], "violates": inv, "scenario": None, "schedule": None})
+            log("%s model %s with defect %s violates %s" % (pid, c["module"], c["defect"], inv))
         quick = tier == "quick"
         for i, sc in enumerate(plan["scenarios"]):
             nthreads = sc["scenario"].count("|") + 1
